@@ -1828,16 +1828,24 @@ public:
     auto &RHS = expr.getRHS();
     if (LHS->isConst() && RHS->isConst()) {
       // Evaluate binary expression.
+      // Evaluate as the generated code would: 32-bit wrap-around arithmetic,
+      // and the ordering operators as the sign of the (wrapped) difference.
+      auto wrapAdd = [](int a, int b) {
+        return static_cast<int>(static_cast<unsigned>(a) + static_cast<unsigned>(b));
+      };
+      auto wrapSub = [](int a, int b) {
+        return static_cast<int>(static_cast<unsigned>(a) - static_cast<unsigned>(b));
+      };
       int result;
       switch (expr.getOp()) {
-        case Token::PLUS:  result = LHS->getValue() +  RHS->getValue(); break;
-        case Token::MINUS: result = LHS->getValue() -  RHS->getValue(); break;
+        case Token::PLUS:  result = wrapAdd(LHS->getValue(), RHS->getValue()); break;
+        case Token::MINUS: result = wrapSub(LHS->getValue(), RHS->getValue()); break;
         case Token::EQ:    result = LHS->getValue() == RHS->getValue(); break;
         case Token::NE:    result = LHS->getValue() != RHS->getValue(); break;
-        case Token::LS:    result = LHS->getValue() <  RHS->getValue(); break;
-        case Token::LE:    result = LHS->getValue() <= RHS->getValue(); break;
-        case Token::GR:    result = LHS->getValue() >  RHS->getValue(); break;
-        case Token::GE:    result = LHS->getValue() >= RHS->getValue(); break;
+        case Token::LS:    result = wrapSub(LHS->getValue(), RHS->getValue()) < 0; break;
+        case Token::LE:    result = !(wrapSub(RHS->getValue(), LHS->getValue()) < 0); break;
+        case Token::GR:    result = wrapSub(RHS->getValue(), LHS->getValue()) < 0; break;
+        case Token::GE:    result = !(wrapSub(LHS->getValue(), RHS->getValue()) < 0); break;
         case Token::AND:   result = LHS->getValue() == 0 ? 0 : (RHS->getValue() == 0 ? 0 : 1); break;
         case Token::OR:    result = LHS->getValue() != 0 ? 1 : (RHS->getValue() == 0 ? 0 : 1); break;
         default:
@@ -1852,7 +1860,7 @@ public:
       // Evaluate unary expression.
       int result;
       switch (expr.getOp()) {
-        case Token::MINUS: result = -element->getValue(); break;
+        case Token::MINUS: result = static_cast<int>(0U - static_cast<unsigned>(element->getValue())); break;
         case Token::NOT:   result = element->getValue() == 0 ? 1 : 0; break;
         default:
           throw SemanticTokenError(expr.getLocation(), "unexpected unary op", expr.getOp());
